@@ -109,7 +109,28 @@ XList == <<
                           F("w", TStr(-1, -1))>>))>>, TRUE, <<>>),
   \* integers beyond 2^53 (exact decimal text, see Semantics!JBig) as defaults and constants; two copies: the output
   \* options (compact / pretty) alternate with the schema id
-  BigInts("bigints-a"), BigInts("bigints-b")
+  BigInts("bigints-a"), BigInts("bigints-b"),
+  \* several fields (of one struct and of two structs) typed by the SAME foreign object with different defaults / none
+  XEntry("xpkg-ref-defaults", <<
+    Def("Root", TStruct(<<Fld("k1", TRef("XKind"), TRUE, FALSE, JStr("y")), Fld("k2", TRef("XKind"), TRUE, FALSE, JStr("x")),
+                          F("k3", TRef("XKind")), FOpt("k4", TRef("XKind")), Fld("l1", TRef("XLimit"), FALSE, FALSE, JInt(1)),
+                          F("l2", TRef("XLimit")), F("o", TRef("Own")), F("w", TStr(-1, -1))>>)),
+    Def("Own", TStruct(<<F("k", TRef("XKind")), Fld("kd", TRef("XKind"), FALSE, FALSE, JStr("x")), Fld("l", TRef("XLimit"), TRUE, FALSE, JInt(2))>>)),
+    XKind, Def("XLimit", TInt("int64", Ge(0), Le(2)))>>, TRUE,
+    <<FE("XKind", "Kind", "x"), FE("XLimit", "Limit", "x")>>),
+  \* fractional bounds (in tenths) on integers and numbers: both signs, all four operators
+  XEntry("fractional-bounds", <<
+    Def("Root", TStruct(<<F("ilt", TInt("int64", NoB, Lt10(25))), F("ige", TInt("int64", Ge10(5), NoB)),
+                          F("ile", TInt("int64", NoB, Le10(-5))), F("igt", TInt("int64", Gt10(-25), NoB)),
+                          FOpt("ile2", TInt("int64", NoB, Le10(15))), FOpt("igt2", TInt("int64", Gt10(5), NoB)),
+                          FOpt("ige2", TInt("int64", Ge10(-15), NoB)), FOpt("ilt2", TInt("int64", NoB, Lt10(-5))),
+                          F("nge", TNum("float64", Ge10(5), Lt10(25))), F("ai", TArr(TInt("int64", Ge10(5), Le10(15)))),
+                          F("w", TStr(-1, -1))>>))>>, TRUE, <<>>),
+  \* the same with inclusive bounds only (an OpenAPI 3.0 document can spell them)
+  XEntry("fractional-bounds-inclusive", <<
+    Def("Root", TStruct(<<F("ige", TInt("int64", Ge10(5), NoB)), F("ile", TInt("int64", NoB, Le10(-5))),
+                          FOpt("ige2", TInt("int64", Ge10(-15), NoB)), FOpt("ile2", TInt("int64", NoB, Le10(15))),
+                          F("n", TNum("float64", Ge10(5), Le10(15))), F("w", TStr(-1, -1))>>))>>, TRUE, <<>>)
 >>
 
 (* ------------------ thorough tier only: three packages, aliases, mutual recursion, defaults, grids ------------------ *)
